@@ -8,6 +8,11 @@ ids = [p["id"] for p in props]
 HOOK_COMMITS = ["332865e1b", "bf49db00e", "0b99e4fc0", "68bfb6d5a"]
 
 CHECKS = {
+ "C19": dict(
+   level="fault_enumeration", design="§4 C19",
+   technique="runtime monitoring with fault injection: every truncation, enumerated byte corruptions of all metadata regions and targeted metadata lies of small valid files (written by the independent writer) are fed to the real reader, one engine per mutant, under CPU-time and address-space limits; outcome-class monitor (rows/error vs panic, abort, allocation failure, non-termination) with journal attribution",
+   text="For each base file (18 type/encoding layouts x 5 codecs x page v1/v2 x 1-3 row groups): every truncation length (exhaustive), every byte of the footer, page headers, dictionary pages and level regions x {0x00,0xFF,^0x01,^0x80} plus 10% of data bytes, and ~20 metadata fields x 7 lie values; plus ~50 malformed CSV files. 20-65k mutants per quick run. A mutant that panics, kills the process, exceeds 20 CPU-seconds or the 4 GiB cap refutes the property; each recorded panic site is a known finding keyed by (message class, source file).",
+   note="Process deaths are attributed through the journal (START line before each case). Three of the defects found this way were repaired (chunk range past EOF: spin/abort; footer length unchecked); 24 panic sites and 2 allocation aborts are recorded in known_findings.jsonl."),
  "C10": dict(
    level="exploration", design="§4 C10",
    technique="runtime monitoring: independent-writer oracle (files produced by vf/pqwrite.py, a from-the-spec Parquet writer sharing no code with the engine) over executions of read_parquet under varied batch sizes, partitions and adversarial read chunking (ChaosFs); metadata functions vs written footer",
